@@ -205,3 +205,9 @@ QM(('C17', 'C14'), 'compose', 'harness/compose_unit.c', unwind=6, link=['cJSON.c
    cost=10, witnesses=['end', 'composed'], functions=['compose_patch', 'cJSONUtils_AddPatchToArray', 'encode_string_as_pointer', 'pointer_encoded_length', 'cJSON_CreateObject', 'cJSON_CreateString', 'cJSON_AddItemToObject', 'cJSON_AddItemToArray'], timeout=1200)
 QM(('C16', 'C17', 'C18'), 'cmpjson.number', 'harness/cmpjson.c', defs=['-DK=1', '-DNUMMODE'], unwind=3, link=['cJSON.c'], stub=['compare_json'], stub_lib='cJSON_Utils.c', unwindset=ML(4, 40), cost=10, witnesses=['number'],
    functions=['compare_json', 'compare_double'], timeout=900)
+
+# ------------------------------------------------------------------ integration (thorough only): the real parser without stubs
+for M in (1, 2):
+    QM(('C01', 'C03', 'C10'), 'e2e.M%d' % M, 'harness/parse_e2e.c', defs=['-DM=%d' % M, '-DCJSON_NESTING_LIMIT=2'], unwind=M + 3,
+       unwindset=ML(M + 3, 30) + ['cJSON_Delete:3', 'cJSON_Delete.0:%d' % (M + 2), 'walk:3', 'parse_value:4', 'parse_array:3', 'parse_object:3', 'memcmp.0:5', 'strncmp.0:7'],
+       tiers=('thorough',), cost=100, timeout=3600, mem_gb=30, functions=['cJSON_ParseWithLengthOpts', 'parse_value', 'parse_number', 'parse_string', 'parse_array', 'parse_object', 'cJSON_Delete'])
